@@ -1,4 +1,5 @@
 import FFVerif.Props.C08
+import FFVerif.Props.C08Inv
 import FFVerif.Pins.pinIntegrate
 import FFVerif.Pins.pinIdentityElementIndex
 import FFVerif.Pins.C08_infidelity_source_shape
@@ -16,6 +17,14 @@ import FFVerif.Pins.C08_infidelity_source_shape
 #print axioms FFVerif.C08.infidelity_traceless_branch
 #print axioms FFVerif.C08.total_infidelity_nonneg
 #print axioms FFVerif.C08.pulse_correlations_sum_to_total
+#print axioms FFVerif.C08.infidelity_congr_cm
+#print axioms FFVerif.C08.infidelity_lipschitz_cm
+#print axioms FFVerif.C08.absIntegral_is_integrate
+#print axioms FFVerif.C08.infidelity_scaling_law
+#print axioms FFVerif.C08.infidelity_perm_opers
+#print axioms FFVerif.C08.infidelity_perm_opers_entries
+#print axioms FFVerif.C08.infidelity_traceless_noise_opers
+#print axioms FFVerif.C08.infidelity_branches_agree
 #print axioms FFVerif.Pins.pinIntegrate
 #print axioms FFVerif.Pins.pinIdentityElementIndex
 #print axioms FFVerif.C08.infidelity_source_shape
